@@ -7,7 +7,7 @@ THEOREMS = [
     "XcmModel.C02.C02_rc_range", "XcmModel.C02.C02_capacity", "XcmModel.C02.inv_run",
     "XcmModel.C02.C02_failed_call_no_trace", "XcmModel.C02.C02_btcp_prefix",
     "XcmModel.Api.bsend_acc", "XcmModel.Api.finishAfter_spec", "XcmModel.C02.C02_bsend_accounting",
-    "XcmModel.C02btls.C02_btls_rc_range", "XcmModel.C02btls.C02_btls_failed_call_no_trace", "XcmModel.C02btls.C02_btls_capacity", "XcmModel.C02btls.C02_btls_counters",
+    "XcmModel.C02btls.C02_btls_accepted_is_written_plus_retained", "XcmModel.C02btls.C02_btls_send_accepts_prefix", "XcmModel.C02btls.C02_btls_retry_discipline", "XcmModel.C02btls.C02_btls_capacity", "XcmModel.C02btls.C02_btls_receive_keeps_accepted",
 ]
 
 
